@@ -73,3 +73,34 @@ func verifC18Cell(s string) {
 	vfObserveInt("width", c.TerminalCellWidth())
 	vfObserveInt("nlines", len(lines))
 }
+
+type vfMutable struct{ s string }
+
+func (m *vfMutable) String() string { return m.s }
+
+// VerifC18_updated: after the item changed (also to the empty string) and the cell was updated, height,
+// width and lines agree with the new text.
+func VerifC18_updated() {
+	n := 2
+	if vfTier() == 1 {
+		n = 3
+	}
+	m := &vfMutable{vfUniString("s1", n)}
+	c := NewCell(m)
+	m.s = vfUniString("s2", n)
+	c.Update()
+	verifC18Consistent(&c, m.s)
+}
+
+func verifC18Consistent(c *Cell, s string) {
+	lines := c.Lines()
+	vfAssert(c.String() == s, "text-is-string")
+	vfAssert(c.Height() == len(lines), "height-is-line-count")
+	maxC := 0
+	for i := range lines {
+		w := length.StringCells(lines[i])
+		maxC = vfIteInt(w > maxC, w, maxC)
+	}
+	vfAssert(c.TerminalCellWidth() == maxC, "width-is-widest-line")
+	vfAssert(len(lines) == len(length.Lines(s)), "cell-lines-are-length-lines")
+}
